@@ -204,7 +204,12 @@ class Task:
         server_header = None
 
         for headername, headerval in self.response_headers:
-            headername = "-".join([x.capitalize() for x in headername.split("-")])
+            if headername.isascii():
+                # (str.capitalize() is not a pure case change for every
+                # letter: 'ßx' becomes 'Ssx', 'ﬁx' becomes 'Fix')
+                headername = "-".join(
+                    [x.capitalize() for x in headername.split("-")]
+                )
 
             if headername == "Content-Length":
                 if self.has_body:
